@@ -397,6 +397,16 @@ def r6(ctx):
                     ctx.check("R6", f"{f.site()}::method", strs == [meth], f"delegates with method name `{meth}`",
                               f"{fn} delegates with method name {strs} but must stack `{meth}`")
                     continue
+            # recognised wrong: the result has `thetas.n_thetas` rows (the holder's capacity) but the loop walks the holder itself, which
+            # yields only the samples added so far: a holder that is not full gives trailing all-zero rows instead of a refusal
+            if len(loops) == 1:
+                it_ = inline(loops[0].iter, fenv)
+                src_ = it_.args[0] if isinstance(it_, ast.Call) and call_name(it_) == "enumerate" and it_.args else it_
+                alloc = [c for c in calls(f.node) if (call_name(c) or "").split(".")[-1] in ("zeros", "empty", "full", "ones") and f"{thetas}.n_thetas" in U(c)]
+                if U(src_) == thetas and alloc:
+                    ctx.bad("R6", f"{f.site()}::one-row-per-sample", f"the result is allocated with `{thetas}.n_thetas` rows but filled by iterating `{U(it_)}`: "
+                            f"a holder with fewer samples than its capacity yields trailing all-zero rows that belong to no posterior sample (get_theta refused)")
+                    continue
             raise AnalysisError(f"{f.site()}: loop `for i in range({thetas}.n_thetas)` not found")
         loop = loops[0]
         i = loop.target.id
